@@ -16,6 +16,8 @@ META = {
     "technique": "regenerated data-flow table + Coq proof by computation; vm_compute equality check on the two real front ends",
 }
 IMPORTS = P.PIPE_IMPORTS + "\nFrom Annet Require Import Spec.P_C16."
+# the predicate on observed outputs alone: independent of the regenerated data-flow table (Gen/Src_api.v)
+IMPORTS_OBS = P.PIPE_IMPORTS + "\nFrom Annet Require Import Spec.P_C16o."
 
 
 def coq_side(s: dict) -> tuple[str, str, str]:
@@ -29,7 +31,11 @@ def coq_obs(r: dict) -> str:
 
 
 def run(ctx):
-    core.proof_stage(ctx, THEOREM_FILE)
+    rep = core.proof_stage(ctx, THEOREM_FILE)
+    # if the theorem file no longer builds (e.g. the front ends' data flow changed and Gen/Src_api.v cannot be
+    # regenerated or the proof by computation fails) the search for a concrete failing input goes on with the
+    # table-independent predicate on the two real front ends' outputs
+    imports = IMPORTS if rep.compiled else IMPORTS_OBS
     # (a) shipped corpus and cross pairs through both real front ends
     nsh = 16
     payloads = [{"mode": "corpus", "pairs": 4000 if ctx.thorough else 400, "seed": ctx.seed, "shard": [k, nsh],
@@ -39,7 +45,7 @@ def run(ctx):
         parts = list(ex.map(lambda p: core.run_impl("c16_runner.py", p, timeout=1500), payloads))
     obs = [r for part in parts for r in part]
     terms = [coq_obs(r) for r in obs]
-    res = core.run_case_files(ID, "obs16", IMPORTS, {"holds": "P_C16"}, terms, per_file=60, tag="corpus")
+    res = core.run_case_files(ID, "obs16", IMPORTS_OBS, {"holds": "P_C16"}, terms, per_file=60, tag="corpus")
     for i in res["holds"][:3]:
         r = obs[i]
         ctx.add_violation(core.Violation(
@@ -69,7 +75,10 @@ def run(ctx):
                        "match snd m, o_file_patch (snd x) with POk a, Some b => ptree_eqb a b && diff_eqb (fst m) (o_file_diff (snd x)) "
                        "| PErr, None => true | _, _ => false end"),
     }
-    sres = core.run_case_files(ID, "pcase * obs16", IMPORTS, preds, sterms, per_file=40, tag="synthetic")
+    if not rep.compiled:
+        del preds["agree_file"]
+    sres = core.run_case_files(ID, "pcase * obs16", imports, preds, sterms, per_file=40, tag="synthetic")
+    sres.setdefault("agree_file", [])
     for j in sres["holds"][:3]:
         i = keep[j]
         ctx.add_violation(core.Violation(
